@@ -1,14 +1,21 @@
 #!/venv/bin/python
-"""Write selftest/reviewed_names.json: for every function of the reviewed tree the identifiers it
+"""Write selftest/reviewed_shape.json: for every function of the reviewed tree the identifiers it
 mentions.  Used only to make comparisons *more lenient* (an identifier the reviewed function did not
 contain marks an expression as renamed / restructured), never to flag anything."""
 import ast, json, os, sys
 V = os.path.dirname(os.path.dirname(os.path.abspath(__file__)))
 sys.path.insert(0, V)
 from pmverif.core import Program
+from pmverif.norm import Resolver, assigned_names
 prog = Program()
 out = {}
 for fn in prog.all_funcs():
-    out[fn.key] = sorted({n.id for n in ast.walk(fn.node) if isinstance(n, ast.Name)} | {a.arg for a in ast.walk(fn.node) if isinstance(a, ast.arg)})
-json.dump(out, open(os.path.join(V, "selftest", "reviewed_names.json"), "w"), indent=0, sort_keys=True)
+    from pmverif.core import walk_own
+    out[fn.key] = {
+        "names": sorted({n.id for n in ast.walk(fn.node) if isinstance(n, ast.Name)} | {a.arg for a in ast.walk(fn.node) if isinstance(a, ast.arg)}),
+        "locals": sorted((assigned_names([fn.node]) | set(fn.params())) - {fn.name}),
+        "defs": {k: " ".join(ast.unparse(e).split()) for k, e in sorted(Resolver(fn.node).defs.items())},
+        "returns": sorted(" ".join(ast.unparse(r.value).split()) if r.value is not None else "None" for r in walk_own(fn.node) if isinstance(r, ast.Return)),
+    }
+json.dump(out, open(os.path.join(V, "selftest", "reviewed_shape.json"), "w"), indent=0, sort_keys=True)
 print(len(out), "functions")
